@@ -23,8 +23,8 @@ assumptions = [
     "floating point texts are restricted to exactly representable decimal numerals (the model answers "
     "'unsupported' for inexact decimals, hex floats, inf/nan, subnormal results); strtof/strtod are trusted for those",
     "libc: strtoumax/strtoimax grammar, isspace/isgraph in the C locale, strdup/realloc never fail",
-    "a point given as one number repeats it for y (mpt_fpoint_set through the exhausted string iterator; relies on "
-    "mpt_iterator_consume leaving its conversion buffer as the previous call left it)",
+    "a point given as one number repeats it for y (mpt_fpoint_set: second element MissingData = single value, "
+    "ed1bd33/b88fb5d of the C19 worker)",
 ]
 trusted = [
     "translate/layout_extract.py renders struct members, def_<kind> initialisers, elem[] tables, setter chains, "
@@ -94,7 +94,7 @@ FLOATS = ["0", "1", "-1", "0.5", "-0.25", "2.5", "100", "0.125", "1e2", "1E-0", 
           "16777215", "16777216", "-16777215", "0.0000152587890625", "3.0517578125e-05", "5e-1x", "4096.0625", "0.75e2"]
 POINTS = ["0.5", "0.25 0.75", "0.25,0.75", "0.25;0.75", "0.25/0.75", "0.25:0.75", "0.25x0.75", "1 1", "0 0", "0", "1", "2", "-1",
           "0.5 2", "2 0.5", "0.5 -1", "0.5 ", "0.5 abc", "abc", "0.5  0.75", " 0.5 0.25", "0.5 0.25 0.125", "", "3 4", "1e1 2",
-          "16777215 1", "0.5,", ",0.5", "1e39", "0.5 1e39"]
+          "16777215 1", "0.5,", ",0.5", "1e39", "0.5 1e39", " ", "  \t", "0.5   ", "0.5  \t", "0.5 \t0.25"]
 CHARS = ["t", "b", "5", "tu", " t", "  ", "", "~", "!", "\x7f", "\x01", "\x80x", "\xff", "\t\tq", "0", "-1", "top", "T"]
 STRINGS = ["a", "abc", "hello world", " lead", "trail ", "  ", "", "x" * 15, "x" * 16, "x" * 17, "y" * 255, "z" * 256, "w" * 300,
            "q" * 4096, "#1", "0", "\x01\x7f\x80\xff", "a b;c,d:e/f", "log", "red"]
@@ -265,8 +265,6 @@ def scripts(tier, seed, scale=1):
                     n = r.choice([n.upper(), n[:max(1, len(n) - 1)], n + "s", n.capitalize()])
                 vals = values_for(act)
                 v = r.choice(vals) if r.random() < 0.9 else r.choice(STRINGS + FLOATS + COLOURS)
-                if act.startswith(".fpoint") and not _point_ok(v):
-                    v = "0.5"
                 if r.random() < 0.08:
                     lines.append("y set %d %s %s" % (i, nm(n), r.choice(["null", "nullstr"])))
                 else:
